@@ -38,6 +38,24 @@ Theorem C19_sparse_valid_filtration :
 Proof. intros d Hn eps He. exact (sparse_valid d Hn eps He). Qed.
 Print Assumptions C19_sparse_valid_filtration.
 
+(* 2b. the same in terms of the Rips VALUE (largest pairwise distance, 0 for a vertex): sparse value >= Rips value *)
+Theorem C19_sparse_value_ge_rips_value :
+  forall (d : nat -> nat -> Q), (forall u v, d u v == d v u) -> (forall u v, 0 <= d u v) ->
+  forall (eps : Q), 0 < eps -> (forall u, d u u == 0) ->
+  forall (N : nat) (pi : list nat) (mini maxi : option Q) (dim_max : Z) (s : list nat) (f : Q),
+  In (s, f) (sparse_complex d eps N pi mini maxi dim_max) -> rips_val d s <= f.
+Proof. intros d Hs Hn eps He Hd. exact (sparse_value_ge_rips_value d Hs Hn eps He Hd). Qed.
+Print Assumptions C19_sparse_value_ge_rips_value.
+
+(* 3b. every simplex of the output is a non-empty strictly increasing list of points of the order (a face of the simplex on the
+       input points), as soon as the order has no repeated point *)
+Theorem C19_sparse_simplices_wellformed :
+  forall (d : nat -> nat -> Q) (eps : Q) (N : nat) (pi : list nat) (mini maxi : option Q) (dim_max : Z) (s : list nat) (f : Q),
+  NoDup pi -> In (s, f) (sparse_complex d eps N pi mini maxi dim_max) ->
+  increasingb s = true /\ s <> [] /\ forall v, In v s -> In v pi.
+Proof. exact sparse_simplices_wf. Qed.
+Print Assumptions C19_sparse_simplices_wellformed.
+
 (* 4. the insertion radii of ANY farthest-point order (any start, any tie-breaking; also a prefix of one) never increase *)
 Theorem C19_radii_nonincreasing : forall (d : nat -> nat -> Q) (N : nat) (pi : list nat),
   greedyb d N [] pi = true -> noninc (lambdas d pi).
